@@ -66,7 +66,7 @@ def mirror_state(model, W):
 def rationalise(x):
     if not math.isfinite(x):
         return [0, 1], core.ULP_CAP
-    q = F(x).limit_denominator(200000)
+    q = F(x).limit_denominator(2 ** 22)
     if not core.fits(q):
         return [0, 1], core.ULP_CAP
     return core.rat(q), core.ulps(x, q, max(abs(x), 1e-300))
@@ -81,6 +81,47 @@ def exact_points(tier):
     return rhos, us, cs
 
 
+def roe_stress_pairs(rnd, tier, gam):
+    """same-direction supersonic pairs on a rational grid with density ratios 1..1024 (rational square roots) whose upwind regime
+    DEPENDS on the Roe weights: every state supersonic, the exactly weighted Roe average too, but the weight-independent sufficient
+    bound min u^2 > max c^2 + (gamma-1)/8 du^2 fails.  TLC decides the regime exactly (Fluxes.tla SuperRight/SuperLeft)."""
+    rhos = [F(1, 16), F(1, 4), F(1), F(4), F(16), F(64)]
+    cs = [F(1, 2), F(1), F(2), F(5)]
+    machs = [F(11, 10), F(5, 4), F(3, 2), F(2), F(3)]
+    states = [(r, m_ * c, c) for r in rhos for c in cs for m_ in machs]
+    g = float(gam)
+
+    def roe(L, R):
+        w = math.sqrt(R[0] / L[0])
+        t = 1.0 / (1.0 + w)
+        HL, HR = float(L[2] ** 2) / (g - 1) + float(L[1] ** 2) / 2, float(R[2] ** 2) / (g - 1) + float(R[1] ** 2) / 2
+        u = t * (float(L[1]) + w * float(R[1]))
+        return u, (g - 1) * (t * (HL + w * HR) - u * u / 2)
+    dep, indep = [], []
+    for L in states:
+        for R in states:
+            if L == R:
+                continue
+            u, c2 = roe(L, R)
+            if not u * u > c2 * 1.001:
+                continue
+            # keep pairs whose upwind physical flux is identifiable from its float (small denominators, 32-bit numerators)
+            p_ = L[0] * L[2] ** 2 / gam
+            fl = [L[0] * L[1], L[0] * L[1] ** 2 + p_, L[0] * L[1] * (L[2] ** 2 / (gam - 1) + L[1] ** 2 / 2)]
+            if any(x.denominator > 2 ** 18 or abs(x.numerator) >= 2 ** 30 for x in fl):
+                continue
+            suff = min(L[1] ** 2, R[1] ** 2) > max(L[2] ** 2, R[2] ** 2) + (gam - 1) / 8 * (L[1] - R[1]) ** 2
+            (indep if suff else dep).append((L, R))
+    nd, ni = (150, 50) if tier == "quick" else (1500, 300)
+    pairs = rnd.sample(dep, min(nd, len(dep))) + rnd.sample(indep, min(ni, len(indep)))
+    out = []
+    for k, (L, R) in enumerate(pairs):
+        if k % 2:       # the mirrored, left-going pair
+            L, R = (R[0], -R[1], R[2]), (L[0], -L[1], L[2])
+        out.append((L, R))
+    return out
+
+
 def exact_records(rnd, tier):
     recs = []
     rhos, us, cs = exact_points(tier)
@@ -92,8 +133,9 @@ def exact_records(rnd, tier):
         pairs = [(s, s) for s in states]
         allpairs = [(a, b) for a in states for b in states if a != b]
         pairs += rnd.sample(allpairs, min(len(allpairs), 400 if tier == "quick" else 6000))
+        stress = roe_stress_pairs(rnd, tier, gam)
         for name in FLUXNAMES["euler"]:
-            for (a, b) in pairs:
+            for (a, b) in pairs + (stress if ("euler", name) in UPWIND else []):
                 try:
                     fl = one(m, name, prim(a), prim(b))
                 except Exception as ex:
